@@ -92,6 +92,32 @@ def jobs(tier):
                                  (t, ("double reflect", "single reflect on port 2 (full M)", "single reflect on port 1 (1x1 M)",
                                       "double reflect unknown/short", "double reflect short/unknown")[v]),
                            timeout=300))
+    # minimal sets of standards WITH a noise model: no V matrices exist, the auto solver's save/restore helpers cope;
+    # and the consistency test has nothing to reject (p-value 1: job of C18 re-run here)
+    for t in (["VNACAL_T8", "VNACAL_UE14"] if tier == "quick" else ["VNACAL_T8", "VNACAL_U8", "VNACAL_TE10", "VNACAL_UE10", "VNACAL_UE14", "VNACAL_E12"]):
+        for over in (0, 1):
+            J.append(V.Job("v_matrices.%s_%s" % (t[7:], "overdetermined" if over else "exact"), "vnacal/c20_vm.c", "h_v_matrices",
+                           sorted(set(BASE + [x for x in SOLVE if x != "vnacal_new_solve_auto.c"] + common_sources())),
+                           defines=CUT + ["-DCAL_TYPE=%s" % t, "-DOVERDETERMINED=%d" % over], unwind=16, union_struct=True,
+                           kind="bounded", canary=(t == "VNACAL_T8" and over == 0),
+                           functions=["alloc_v_matrices", "save_v_matrices", "restore_v_matrices", "_vnacal_new_solve_init"],
+                           bound="%s 1x1, short/open/match%s, noise model on; concrete measurements" % (t, " + a fourth known reflect" if over else ""),
+                           timeout=300))
+    import C18
+    for j in C18.jobs(tier):
+        if j.name.startswith("pvalue_df0."):
+            j.name = "minimal_set_m_error." + j.name
+            j.canary = False
+            j.imported = True
+            J.append(j)
+    # which cells of a multi-port standard produce equations is decided by the connectivity closure of its S matrix:
+    # a lost transitive connection drops equations of a determining set (same job as C17, re-run under this id)
+    import C17
+    for j in C17.connectivity_jobs(tier):
+        j.name = "equation_cells." + j.name
+        j.canary = False
+        j.imported = True
+        J.append(j)
     return J
 
 
